@@ -74,6 +74,10 @@ const (
 func VerifC23Corruption() {
 	d := vfNewDisk()
 	good, h := vfWrittenBlock("h.", 1)
+	// checksum-model hygiene: the checksum of a written block is not the all-zero trailer of an
+	// unwritten one (true for CRC32 of these blocks except with probability 2^-32; under the
+	// uninterpreted-function model the solver would otherwise pick that value)
+	zzvf.Assume(vfStoredCRC(good) != 0)
 	bad := append([]byte{}, good...)
 	vfCorrupt(bad)
 	zzvf.Assume(zzvf.Not(vfBlockValid(bad))) // the statement's premise: checksum does not match
